@@ -229,6 +229,24 @@ Definition pdhg_ref_step (s : pdhg_st) : pdhg_st :=
   mk_pdhg_st x xr y.
 End PDHG.
 
+(* ===================================================== accelerated PDHG, step sizes carried *)
+Section PDHGacc.
+(* acc (tau, sigma) = (theta, (tau', sigma')): the scalar update of one iteration
+   (gamma_primal: theta = 1/sqrt(1 + 2 gamma tau), tau' = tau theta, sigma' = sigma / theta;
+    gamma_dual:   theta = 1/sqrt(1 + 2 gamma sigma), tau' = tau / theta, sigma' = sigma theta).
+   The proximals depend on the current step sizes. *)
+Variables (L Ladj : vec -> vec) (proxp proxd : T -> vec -> vec) (acc : T * T -> T * (T * T)).
+Fixpoint pdhg_acc_iter (n : nat) (ts : T * T) (st : pdhg_st) : (T * T) * pdhg_st :=
+  match n with
+  | O => (ts, st)
+  | S k => let '(th, ts') := acc ts in
+           pdhg_acc_iter k ts' (pdhg_step L Ladj (proxp (fst ts)) (proxd (snd ts)) (fst ts) (snd ts) th st)
+  end.
+(* the step sizes at the head of iteration k *)
+Fixpoint acc_steps (k : nat) (ts : T * T) : T * T :=
+  match k with O => ts | S k' => acc_steps k' (snd (acc ts)) end.
+End PDHGacc.
+
 (* =============================================================== Landweber *)
 Section Landweber.
 (* op, the adjoint of its derivative at a point, optional projection (identity when None) *)
